@@ -29,7 +29,9 @@ def install(I):
     # ------------------------------------------------------------ pointers
     def ptr_binop(I_, frame, st, op, a, b, ty):
         if op == 'Offset':
-            return ptr_offset(a, need_int(b), signed=I.int_info_of_value(b))
+            pd = I.types[ty]
+            ps = I.types[pd['t']].get('size') if 't' in pd else None
+            return ptr_offset(a, need_int(b), psize=ps)
         if isinstance(a, (Ptr, RawPtr)) and isinstance(b, (Ptr, RawPtr)) and op in ('Eq', 'Ne', 'Lt', 'Le', 'Gt', 'Ge'):
             ia, ib = ptr_index(a), ptr_index(b)
             if ia is not None and ib is not None and same_base(a, b):
@@ -73,44 +75,96 @@ def install(I):
         return v.signed
     I.int_info_of_value = int_info_of_value
 
-    def ptr_offset(p, n, signed=False):
+    def arr_unit(p, st):
+        """element size (bytes) of the array an element pointer indexes"""
+        try:
+            v = I.read(st, Loc(p.obj, p.path, None))
+        except Unsupported:
+            return None
+        for _ in range(6):
+            if isinstance(v, (Arr, ArrSum)) and v.ty is not None and I.types[v.ty]['k'] in ('array', 'slice'):
+                return I.types[I.types[v.ty]['e']].get('size')
+            if isinstance(v, Struct):
+                nz = [x for x in v.f if not (isinstance(x, Struct) and not x.f)]
+                if len(nz) == 1:
+                    v = nz[0]
+                    continue
+            return None
+        return None
+
+    def ptr_offset(p, n, signed=False, psize=None):
+        """p.offset(n) where n counts objects of `psize` bytes (the pointee type at the time of the call)"""
         if isinstance(p, Opaque):
             return p
         if not isinstance(p, (Ptr, RawPtr)):
             raise Unsupported('pointer offset on %r' % (p,))
         q = p.copy()
-        base = q.elem if q.elem is not None else (q.start if q.length is not None else None)
         if n.const == 0:
             return q
-        if n.signed and n.const is not None and n.const >> (n.w - 1):
-            k = (1 << n.w) - n.const
-            if base is None:
-                raise Unsupported('negative offset of a non-element pointer')
-            r, _ = binop(I, 'Sub', base, I.usize(k), I.ptr_bits, False)
-        else:
-            if base is None and isinstance(q, Ptr) and I.cur_state is not None:
-                nb = array_base(q, I.cur_state)
-                if nb is not None:
+        neg = n.signed and n.hi < 0
+        if n.signed and n.lo < 0 and not neg:
+            raise Unsupported('pointer offset of unknown sign')
+        mag = AInt(I.ptr_bits, -n.hi, -n.lo) if neg else int_cast(n, n.w, n.signed, I.ptr_bits, False)
+        if isinstance(q, RawPtr):
+            if psize is None:
+                psize = I.types[q.view].get('size') if q.view is not None else None
+            if psize is None:
+                raise Unsupported('offset of a raw constant pointer of unknown pointee size')
+            if q.length is not None:
+                base = q.start
+                r, _ = binop(I, 'Sub' if neg else 'Add', base, mag, I.ptr_bits, False)
+                q.start = r
+                return q
+            if mag.const is not None and q.elem is None:
+                q.off += (-mag.const if neg else mag.const) * psize
+                return q
+            if q.elem is None:
+                q.elem = I.usize(0)
+                q.eunit = psize
+            if q.eunit is None:
+                q.eunit = psize
+            if q.eunit != psize:
+                if psize % q.eunit == 0:
+                    mag, _ = binop(I, 'Mul', mag, I.usize(psize // q.eunit), I.ptr_bits, False)
+                else:
+                    raise Unsupported('mixed-unit offsets on a constant pointer')
+            r, _ = binop(I, 'Sub' if neg else 'Add', q.elem, mag, I.ptr_bits, False)
+            q.elem = r
+            return q
+        base = q.elem if q.elem is not None else (q.start if q.length is not None else None)
+        if base is None and I.cur_state is not None:
+            nb = array_base(q, I.cur_state)
+            if nb is not None:
+                q = nb
+                base = q.elem
+        if base is None:
+            raise Unsupported('offset of a pointer that does not point into an array (%r + %r)' % (p, n))
+        if psize is not None and I.cur_state is not None:
+            unit = arr_unit(q, I.cur_state)
+            if unit is not None and unit != psize:
+                if unit and psize % unit == 0:
+                    mag, _ = binop(I, 'Mul', mag, I.usize(psize // unit), I.ptr_bits, False)
+                elif unit and unit % psize == 0 and q.elem is not None and q.elem.const is not None:
+                    # finer-grained arithmetic (bytes over an array of blocks): step into the addressed element
+                    inner = Ptr(q.obj, q.path + (('i', q.elem.const),), None, None, None, q.view, q.mut)
+                    nb = array_base(inner, I.cur_state)
+                    if nb is None or arr_unit(nb, I.cur_state) != psize:
+                        raise Unsupported('pointer arithmetic in units of %d bytes inside a %d-byte element' % (psize, unit))
                     q = nb
                     base = q.elem
-            if base is None:
-                # pointer to a single object treated as element 0 of a 1-element array: only a zero offset is tracked
-                if isinstance(q, RawPtr):
-                    es = I.types[q.view].get('size') if q.view is not None else None
-                    if es is not None and n.const is not None:
-                        q.off += n.const * es
-                        return q
-                raise Unsupported('offset of a pointer that does not point into an array (%r + %r)' % (p, n))
-            r, _ = binop(I, 'Add', base, int_cast(n, n.w, False, I.ptr_bits, False), I.ptr_bits, False)
+                else:
+                    raise Unsupported('pointer arithmetic in units of %d bytes over an array of %d-byte elements' % (psize, unit))
+        r, _ = binop(I, 'Sub' if neg else 'Add', base, mag, I.ptr_bits, False)
         if q.elem is not None:
             q.elem = r
         else:
             q.start = r
         return q
     I.ptr_offset = ptr_offset
+    I.array_base = lambda p, st, want_ty=None: array_base(p, st, want_ty)
     m['@ptr_binop'] = ptr_binop
 
-    def array_base(p, st):
+    def array_base(p, st, want_ty=None):
         """a pointer to (a transparent wrapper of) an array, viewed as pointer to elements of matching size"""
         try:
             v = I.read(st, Loc(p.obj, p.path, None))
@@ -118,6 +172,8 @@ def install(I):
             return None
         path = p.path
         want = I.types[p.view].get('size') if p.view is not None else None
+        if want_ty is not None:
+            want = I.types[want_ty].get('size')
         for _ in range(6):
             if isinstance(v, (Arr, ArrSum)):
                 es = None
@@ -127,7 +183,14 @@ def install(I):
                     q = p.copy()
                     q.path = path
                     q.elem = I.usize(0)
+                    if want_ty is not None:
+                        q.view = None if I.types[v.ty]['e'] == want_ty else want_ty
                     return q
+                if want is not None and es is not None and es > want and isinstance(v, Arr) and len(v.e) >= 1:
+                    # look inside the first element (array of blocks viewed as bytes)
+                    path = path + (('i', 0),)
+                    v = v.e[0]
+                    continue
                 return None
             if isinstance(v, Struct):
                 nz = [i for i, x in enumerate(v.f) if not (isinstance(x, Struct) and not x.f)]
@@ -406,7 +469,9 @@ def install(I):
 
     # ------------------------------------------------------------ memory intrinsics
     def offset(I_, frame, st, args, callee):
-        return ptr_offset(args[0], need_int(args[1]))
+        pd = I.types[targ(callee)]
+        ps = I.types[pd['t']].get('size') if 't' in pd else I.types[targ(callee)].get('size')
+        return ptr_offset(args[0], need_int(args[1]), psize=ps)
     m['#offset'] = offset
     m['#arith_offset'] = offset
 
@@ -573,6 +638,8 @@ def install(I):
             return I.top(rt)
         return Opaque(rt, simd_term(name, args))
     I.cpu_intrinsic = cpu_intrinsic
+    import simd
+    simd.install(I)
 
     def load_bytes(st, p, n, frame, what, aligned):
         """model of an n-byte vector load: checks that the pointer addresses n readable bytes"""
